@@ -940,7 +940,14 @@ fn run_ops(r: &Req) -> String {
             }
             "refactor" => match f.refactor() {
                 Ok(()) => out.push_str(&format!("r{}=ok {} ", t, fmt_factors(&f, &t.to_string()))),
-                Err(e) => return format!("{}r{}=err:{:?}", out, t, e),
+                Err(e) => {
+                    // a refactor that failed must fail again on the unchanged data (seed C12-g)
+                    let again = match f.refactor() {
+                        Ok(()) => "ok".to_string(),
+                        Err(e2) => format!("err:{:?}", e2),
+                    };
+                    return format!("{}r{}=err:{:?} again{}={}", out, t, e, t, again);
+                }
             },
             "solve" => {
                 let mut b = r.fs(&format!("b{}", t));
@@ -1113,6 +1120,10 @@ fn oracle_ops_inner(r: &Req, out: &str) -> Result<(), String> {
                         rr.kv.insert("logical".into(), "0".into());
                         rr.kv.remove("expect");
                         zero_pivot_rule(&rr, &status, &reg0)?;
+                        let again = o.kv.get(&key("again")).cloned().unwrap_or_default();
+                        if again != status {
+                            return Err(format!("refactor {} failed with {} but refactor() once more on the unchanged data says {:?}", t, status, again));
+                        }
                         return Ok(()); // the history stops at the first error
                     }
                     Ok(f) => {
